@@ -15,8 +15,9 @@ import (
 
 // Crash is the sentinel panic value raised instead of performing write event #Event.
 type Crash struct {
-	Event int64
-	Label string
+	Event   int64
+	Label   string
+	IOError bool // the write was refused but the device went on working (see FailWrite)
 }
 
 func (c Crash) Error() string { return fmt.Sprintf("simdb: injected crash before write event %d (%s)", c.Event, c.Label) }
@@ -49,7 +50,11 @@ type DB struct {
 	Classify func(sets, dels []string) string
 	// Log of labels since the last ResetLog (used to enumerate crash points).
 	log []string
-	dead bool // set once a crash fired: any further write is a harness bug
+	dead bool // set once a crash fired: the process is gone, whatever its unwinding code still writes is lost
+	// ioErr: the armed event is refused with a panic (as tm-db's goleveldb does on an I/O error) but the device
+	// keeps working: writes issued while that panic unwinds (deferred flushes) DO reach the disk
+	ioErr      bool
+	LateWrites int // writes attempted between a crash and Revive (dropped)
 }
 
 var _ dbm.DB = (*DB)(nil)
@@ -82,7 +87,11 @@ func (d *DB) Revive() {
 func (d *DB) Seq() int64 { d.mu.Lock(); defer d.mu.Unlock(); return d.seq }
 
 // CrashBefore arms a crash before absolute write event number n (0-based count of events so far = Seq()).
-func (d *DB) CrashBefore(n int64) { d.mu.Lock(); d.crashAt = n; d.mu.Unlock() }
+func (d *DB) CrashBefore(n int64) { d.mu.Lock(); d.crashAt = n; d.ioErr = false; d.mu.Unlock() }
+
+// FailWrite arms an I/O error at absolute write event number n: that one write panics and is not applied, the
+// database stays usable while the panic unwinds (and afterwards).
+func (d *DB) FailWrite(n int64) { d.mu.Lock(); d.crashAt = n; d.ioErr = true; d.mu.Unlock() }
 
 func (d *DB) ResetLog()       { d.mu.Lock(); d.log = nil; d.mu.Unlock() }
 func (d *DB) Log() []string   { d.mu.Lock(); defer d.mu.Unlock(); return append([]string(nil), d.log...) }
@@ -130,7 +139,9 @@ func (d *DB) LastLabels(n int) []string {
 func (d *DB) apply(kind string, sync bool, ops []op) {
 	// caller holds d.mu
 	if d.dead {
-		panic("simdb: write after injected crash (harness bug: instance not discarded)")
+		// code that runs while the crash "panic" unwinds: the real process was killed, nothing of this happened
+		d.LateWrites++
+		return
 	}
 	label := kind
 	if d.Classify != nil {
@@ -145,6 +156,10 @@ func (d *DB) apply(kind string, sync bool, ops []op) {
 		label = d.Classify(sets, dels)
 	}
 	if d.crashAt >= 0 && d.seq == d.crashAt {
+		if d.ioErr {
+			d.crashAt = -1
+			panic(Crash{Event: d.seq, Label: label, IOError: true})
+		}
 		d.dead = true
 		panic(Crash{Event: d.seq, Label: label})
 	}
